@@ -703,11 +703,18 @@ pub fn qops(spec: &str) -> (Vec<String>, Qualifiers) {
                                     "u".to_string()
                                 },
                                 "tkg" => {
+                                    // the wrapper's three read views (AsRef, Deref, Into<&str>) must show the same text
                                     let g = q.get_typed::<$t>().map(|r| {
+                                        let a = AsRef::<str>::as_ref(&r).to_string();
+                                        let d = (&*r).to_string();
                                         let s: &str = r.into();
-                                        s.to_string()
+                                        if a != s || d != s {
+                                            "\u{1}".to_string()
+                                        } else {
+                                            s.to_string()
+                                        }
                                     });
-                                    if g.is_some() != q.contains_typed::<$t>() {
+                                    if g.as_deref() == Some("\u{1}") || g.is_some() != q.contains_typed::<$t>() {
                                         "INCONSISTENT".to_string()
                                     } else {
                                         ov(g.as_deref())
@@ -1007,7 +1014,7 @@ fn main() {
             let mut pes = vec![ParseError::UnsupportedUrlScheme, ParseError::InvalidPackageType, ParseError::InvalidQualifier, ParseError::InvalidEscape];
             for f in fields {
                 pes.push(ParseError::MissingRequiredField(f));
-                writeln!(out, "field {} = {} / {}", fld(f), f, f.name()).unwrap();
+                writeln!(out, "field {} = {} / {} / {}", fld(f), f, f.name(), <&'static str>::from(f)).unwrap();
             }
             for e in &pes {
                 writeln!(out, "parse {} = {}", perr(e), e).unwrap();
